@@ -8,6 +8,7 @@ import (
 	"strings"
 
 	"github.com/cosmos/cosmos-sdk/types/bech32"
+	"github.com/ethereum/go-ethereum/crypto"
 
 	"github.com/circlefin/noble-cctp/x/cctp/types"
 )
@@ -49,6 +50,56 @@ func scnSelftest(g *Gen, budget int, arg string) {
 	}
 	for _, n := range []int{0, 1, 31, 32, 33, 135, 136, 137, 271, 272, 273, 1000} {
 		ext("keccak", g.randBytes(n))
+	}
+	// secp256k1 recovery: honest signatures, every recovery id, scalar and field boundaries, abscissae off the curve
+	secpN, _ := new(big.Int).SetString("fffffffffffffffffffffffffffffffebaaedce6af48a03bbfd25e8cd0364141", 16)
+	secpP, _ := new(big.Int).SetString("fffffffffffffffffffffffffffffffffffffffffffffffffffffffefffffc2f", 16)
+	b32 := func(x *big.Int) []byte { return new(big.Int).Mod(x, new(big.Int).Lsh(big.NewInt(1), 256)).FillBytes(make([]byte, 32)) }
+	ecr := func(hash, sig []byte) {
+		g.emit(Op{Kind: "ext", KV: newKV().set("fn", "ecrecover").set("a", hx(hash)).set("b", hx(sig))})
+	}
+	nEcr := budget / 6
+	if nEcr > 150 {
+		nEcr = 150
+	}
+	if nEcr < 40 {
+		nEcr = 40
+	}
+	edge := []*big.Int{big.NewInt(0), big.NewInt(1), big.NewInt(2), new(big.Int).Sub(secpN, big.NewInt(1)), secpN,
+		new(big.Int).Add(secpN, big.NewInt(1)), new(big.Int).Sub(secpP, secpN), new(big.Int).Sub(new(big.Int).Sub(secpP, secpN), big.NewInt(1)),
+		new(big.Int).Sub(secpP, big.NewInt(1)), secpP, new(big.Int).Sub(new(big.Int).Lsh(big.NewInt(1), 256), big.NewInt(1))}
+	for i := 0; i < nEcr; i++ {
+		h := crypto.Keccak256(g.randBytes(g.pick(40)))
+		sig, _ := crypto.Sign(h, g.keys[g.pick(len(g.keys))])
+		switch g.pick(10) {
+		case 0, 1, 2: // honest
+		case 3: // every recovery id and some beyond
+			sig[64] = []byte{0, 1, 2, 3, 4, 5, 27, 28, 29, 255}[g.pick(10)]
+		case 4: // r at a boundary
+			copy(sig[0:32], b32(edge[g.pick(len(edge))]))
+			sig[64] = byte(g.pick(4))
+		case 5: // s at a boundary
+			copy(sig[32:64], b32(edge[g.pick(len(edge))]))
+		case 6: // small r: r + n is below p, so recovery ids 2 and 3 are meaningful
+			copy(sig[0:32], b32(new(big.Int).SetBytes(g.randBytes(1+g.pick(16)))))
+			sig[64] = byte(g.pick(4))
+		case 7: // random r (half of all abscissae are off the curve), random s
+			copy(sig[0:32], g.randBytes(32))
+			if g.chance(0.5) {
+				copy(sig[32:64], g.randBytes(32))
+			}
+			sig[64] = byte(g.pick(2))
+		case 8: // wrong lengths
+			if g.chance(0.5) {
+				h = g.randBytes([]int{0, 31, 33, 64}[g.pick(4)])
+			} else {
+				sig = append(sig, 0)[:[]int{0, 64, 66}[g.pick(3)]]
+			}
+		case 9: // hash at the scalar boundaries (reduced modulo n)
+			h = b32(edge[g.pick(len(edge))])
+			sig, _ = crypto.Sign(h, g.keys[g.pick(len(g.keys))])
+		}
+		ecr(h, sig)
 	}
 	for i := 0; i < budget; i++ {
 		switch g.pick(9) {
